@@ -16,6 +16,7 @@ import (
 	"github.com/bluenviron/mediamtx/internal/defs"
 	"github.com/bluenviron/mediamtx/internal/logger"
 	"github.com/bluenviron/mediamtx/internal/protocols/hls"
+	"github.com/bluenviron/mediamtx/internal/protocols/httpp"
 	"github.com/bluenviron/mediamtx/internal/stream"
 )
 
@@ -365,7 +366,7 @@ func (m *muxer) findSession(ctx *gin.Context) *session {
 		return nil
 	}
 
-	if ctx.ClientIP() != sx.ip {
+	if httpp.ClientIP(ctx) != sx.ip {
 		return nil
 	}
 
